@@ -30,7 +30,7 @@ class Filter(base.Filter):
 
     def is_optional_start(self, tagname, previous, next):
         type = next and next["type"] or None
-        if tagname in 'html':
+        if tagname == 'html':
             # An html element's start tag may be omitted if the first thing
             # inside the html element is not a space character or a comment.
             return type not in ("Comment", "SpaceCharacters")
